@@ -131,3 +131,91 @@ def seq_map(prog, b, t):
     if v["kind"] == "closure":
         return it, Lam(v["body"], v["item"], v["elem"], list(v["upvars"]), "closure")
     return it, Lam(v["body"], v["item"], v["elem"], None, "loop")
+
+
+def seq_filter(prog, b, t):
+    """`ITER.filter(p).collect()` or `for x in ITER { if p(x) { v.push(x) } }` (also with `continue` guards):
+    returns (iter term, Lam whose result is the KEEP condition with polarity folded in: (cond term, keep_when: bool)), or None.
+    The pushed/collected element must be the item itself."""
+    t0 = mir.simplify(unref(t))
+    if is_call(t0, "collect", nargs=1) and is_call(t0[2][0], "core::iter::traits::iterator::Iterator::filter", nargs=2):
+        it, clo = t0[2][0][2]
+        lam = lam_of(prog, clo)
+        if lam is None or lam.kind != "closure":
+            return None
+        while is_call(it, "into_iter", nargs=1):
+            it = it[2][0]
+        cond, pol = lam.result, True
+        while cond[0] == "unop" and cond[1] == "Not":
+            cond, pol = cond[2], not pol
+        # the filter closure receives `&item`
+        return it, Lam(lam.body, lam.item, (cond, pol), lam.upvars, "closure")
+    if t0[0] != "var":
+        return None
+    V = t0
+    init = b.var_init(V[1])
+    if len(init) != 1 or not (is_call(init[0], "alloc::vec::Vec::new", nargs=0) or is_call(init[0], "alloc::vec::Vec::with_capacity", nargs=1)):
+        return None
+    pushes = []
+    for bb, c in b.calls():
+        for ai, a in enumerate(c["args"]):
+            at = b.operand_term(a)
+            if at[0] == "ref" and at[1] and unref(at) == V:
+                if b.callee_name(c) == "alloc::vec::Vec::push" and ai == 0:
+                    pushes.append((bb, c))
+                else:
+                    return None
+    if len(pushes) != 1:
+        return None
+    pbb, pc = pushes[0]
+    E = b.operand_term(pc["args"][1])
+    for nbb, nc in b.calls():
+        if b.callee_decl(nc) != "core::iter::traits::iterator::Iterator::next":
+            continue
+        itv = unref(b.operand_term(nc["args"][0]))
+        tgt = nc["target"]
+        if itv[0] != "var" or tgt is None or b.blocks[tgt]["term"]["k"] != "switch":
+            continue
+        sw = b.blocks[tgt]["term"]
+        some_t = [a[1] for a in sw["arms"] if a[0] == "1"]
+        if not some_t or not b.dominates(some_t[0], pbb):
+            continue
+        ini = b.var_init(itv[1])
+        if len(ini) != 1:
+            return None
+        it = ini[0]
+        while is_call(it, "into_iter", nargs=1):
+            it = it[2][0]
+        nterm = b.call_term(nc, bb=nbb)
+        item = ("field", ("downcast", nterm, 1, "Some"), 0, "0", "core::option::Option")
+        if unref(E) != item:
+            return None
+        # the guards: switches between the Some arm and the push
+        drop = b.drop_flags()
+        guards = []
+        for i, bl in enumerate(b.blocks):
+            if bl["cleanup"] or bl["term"]["k"] != "switch" or i == tgt:
+                continue
+            if not (b.dominates(some_t[0], i) and b.dominates(i, pbb)):
+                continue
+            d = bl["term"]["discr"]
+            pl = d.get("copy") or d.get("move")
+            if pl is not None and not pl["p"] and pl["l"] in drop:
+                continue
+            guards.append((i, bl["term"]))
+        if len(guards) != 1:
+            return None
+        gi, g = guards[0]
+        cond = b.operand_term(g["discr"])
+        zero = [a[1] for a in g["arms"] if a[0] == "0"]
+        if not zero:
+            return None
+        on_true = b.dominates(g["otherwise"], pbb) and not b.dominates(zero[0], pbb)
+        on_false = b.dominates(zero[0], pbb) and not b.dominates(g["otherwise"], pbb)
+        if on_true == on_false:
+            return None
+        pol = on_true
+        while cond[0] == "unop" and cond[1] == "Not":
+            cond, pol = cond[2], not pol
+        return it, Lam(b, item, (cond, pol), None, "loop")
+    return None
